@@ -128,6 +128,20 @@ func c02Build(c c02Case, vals []opVal) (p *Prog, expectLoadErr bool, ok bool) {
 			rt.Assign(c.Op, rt.Id("z"), re),
 			rt.Call("add_key", rt.Id("r"), rt.Call("p", rt.Id("z"))),
 		}
+	case "asg-list":
+		// zl = [0, L]; zl[1] op= R; p(zl)
+		body = []*rt.Node{
+			rt.Assign("=", rt.Id("zl"), rt.List(rt.Int(0), le)),
+			rt.Assign(c.Op, rt.Index("zl", rt.Int(1)), re),
+			rt.Call("p", rt.Id("zl")),
+		}
+	case "asg-map":
+		// zm = {"k": {"j": L}}; zm["k"]["j"] op= R; p(zm)
+		body = []*rt.Node{
+			rt.Assign("=", rt.Id("zm"), rt.Map(rt.Str("k"), rt.Map(rt.Str("j"), le))),
+			rt.Assign(c.Op, rt.Index("zm", rt.Str("k"), rt.Str("j")), re),
+			rt.Call("p", rt.Id("zm")),
+		}
 	}
 	p.Scripts["s.p"] = append(prelude, body...)
 	return p, expectLoadErr, true
@@ -314,13 +328,15 @@ func c02Run(w *run.Worker) {
 				}
 			}
 		}
-		for _, op := range c02AsgOps {
-			for l := range vals {
-				for r := range vals {
-					if !w.Take() {
-						continue
+		for _, form := range []string{"asg", "asg-list", "asg-map"} {
+			for _, op := range c02AsgOps {
+				for l := range vals {
+					for r := range vals {
+						if !w.Take() {
+							continue
+						}
+						c02Cell(w, c02Case{Form: form, Op: op, L: l, R: r, Src: src}, vals)
 					}
-					c02Cell(w, c02Case{Form: "asg", Op: op, L: l, R: r, Src: src}, vals)
 				}
 			}
 		}
@@ -367,7 +383,7 @@ func init() {
 	run.Register(&run.Check{
 		ID:    "C02",
 		Level: "model_checking",
-		Rule: "(A) every operator (14 binary incl. in/&&/||, 5 compound assignments, 3 unary) x every ordered pair of a 31-value set covering all operand classes " +
+		Rule: "(A) every operator (14 binary incl. in/&&/||, 5 compound assignments on a variable, a list element and a nested map element, 3 unary) x every ordered pair of a 31-value set covering all operand classes " +
 			"x operand source {literal, variable, point field}; (B) every expression tree with <=2 (quick; 3 with 2 atoms) / <=3 (thorough, 6 atoms) binary operators over 8 atoms with every leaf wrapped in the probe; " +
 			"each program is run on the real engine and on the reference interpreter; distinct = distinct real outcomes (trace, point, error flag)",
 		Assumptions: []string{
